@@ -16,6 +16,7 @@ import re
 import struct
 import vlib, petruth
 from fhgen import *
+import suites
 from props import C01, C03
 
 RULE = ("structural PE hostility (8 kinds) x probes at entry boundaries x frame kind x boundary registers, model-compared; "
@@ -226,6 +227,32 @@ def dwarf_limits(rng, tier):
                 regs = s.regs_x86(a, sp, fp) if arch == "x86" else s.regs_a64(M64, 0x101041, sp, fp)
                 s.add("unwind U C %s %s %s S" % (mode, hx(a), regs), tag="struct:dwarf-limits:%s:%s" % (arch, mode))
         out.append(("struct-dwarf-limits-%d" % rep, s))
+    return out
+
+def dwarf_wrapping_fdes(rng, tier):
+    """FDEs whose range runs up to or past the end of the address space (start + length = 2^64, > 2^64, length
+    2^64-1) next to ordinary ones, every presentation: the index is built over them at module creation, and the
+    evaluator computes their end with wrapping arithmetic (they contain nothing)"""
+    out = []
+    for rep in range(3 if tier == "quick" else 12):
+        arch = "x86" if rep % 2 == 0 else "a64"
+        s = Script(arch, "may" if rep % 4 < 2 else "must")
+        pres = ["eh", "debug", "hdr"][rep % 3]
+        fd = [dict(start=0x1000, len=0x100, rows=[(0, suites.std_row(arch, "frameless", 2))]),
+              dict(start=0x1800, len=M64, rows=[(0, suites.std_row(arch, "frameless", 3))]),
+              dict(start=0x3000, len=M64 - 0x2fff, rows=[(0, suites.std_row(arch, "frameless", 4))]),       # end = 2^64 exactly
+              dict(start=0x5000, len=M64 - 0x4fff - 1, rows=[(0, suites.std_row(arch, "frameless", 5))]),   # end = 2^64 - 1: fine
+              dict(start=0x2000, len=0, rows=[(0, suites.std_row(arch, "frameless", 6))])]                  # empty
+        fd = fd[: 3 + rep % 3] if rep % 2 else fd
+        s.module_dwarf("M", 0x100000, 0x110000, 0x100000, 0, pres, fd, rng, shuffle=True)
+        s.add("new U"); s.add("add U M"); s.add("newcache C")
+        s.mem("S", [(0x7000 + 8 * i, 0x50000 + i) for i in range(64)])
+        for rel in (0x10, 0x1010, 0x10ff, 0x1100, 0x1800, 0x1810, 0x2000, 0x2001, 0x3000, 0x3010, 0x5000, 0x5010, 0xffff):
+            for mode in ("ip", "ra"):
+                a = 0x100000 + rel + (1 if mode == "ra" else 0)
+                regs = s.regs_x86(a, 0x7000, 0x7100) if arch == "x86" else s.regs_a64(M64, 0x101041, 0x7000, 0x7100)
+                s.add("unwind U C %s %s %s S" % (mode, hx(a), regs), tag="struct:dwarf-wrap:%s:%s:%s" % (arch, pres, mode))
+        out.append(("struct-dwarf-wrap-%d" % rep, s))
     return out
 
 def dwarf_expr_loops(rng, tier):
@@ -619,6 +646,11 @@ def analysis_stream(rng, tier):
                     longs = [(bytes([0x5B]) * 65536 + bytes([0xC3]), 0), (bytes([0x41, 0x5C]) * 65536 + bytes([0xC3]), 0),
                              (bytes([0x53]) * 65536 + bytes([0x48, 0x83, 0xEC, 0x28]), 65536),
                              (bytes([0x41, 0x54]) * 65536 + bytes([0x48, 0x83, 0xEC, 0x28]), 131072)]
+                    # pops up to and across the i16 range of the rbp slot that `pop rbp` records (0x7ffe .. 0x8001 and
+                    # beyond u16), each followed by pop rbp; ret
+                    for n in (0x7ffe, 0x7fff, 0x8000, 0x8001, 0xfffe, 0xffff, 0x10000):
+                        longs.append((bytes([0x5B]) * n + bytes([0x5D, 0xC3]), 0))
+                        longs.append((bytes([0x41, 0x5C]) * (n // 2) + bytes([0x5B]) * (n - n // 2) + bytes([0x5D, 0xC3]), 0))
                 else:
                     longs = [(bytes.fromhex("ffff7f91") * 200 + bytes.fromhex("c0035fd6"), 0),
                              (bytes.fromhex("ffff7fd1") * 200 + bytes.fromhex("fd7bbfa9"), 800),
@@ -632,7 +664,7 @@ def analysis_stream(rng, tier):
 
 def generate(rng, tier):
     import suites
-    out = structural(rng, tier) + dwarf_base(rng, tier) + dwarf_limits(rng, tier) + dwarf_expr_loops(rng, tier)
+    out = structural(rng, tier) + dwarf_base(rng, tier) + dwarf_limits(rng, tier) + dwarf_expr_loops(rng, tier) + dwarf_wrapping_fdes(rng, tier)
     # valid DWARF worlds including modules without any FDE (model-compared)
     for w in range(4 if tier == "quick" else 40):
         nm, s = suites.dwarf_world(rng, "x86" if w % 2 == 0 else "a64", nmods=3, nf=3, nprobes=30, policy="may" if w % 4 < 2 else "must")
